@@ -177,6 +177,17 @@ Qed.
 Definition at_most_one (o : txp_out) : bool :=
   negb (po_vrst o && po_vdata o) && negb (po_vrst o && po_vhs o) && negb (po_vdata o && po_vhs o).
 
+Ltac split_env He :=
+  cbn [txq_env] in He;
+  let Henv := fresh "Henv" in let Hrx := fresh "Hrx" in let Hhs := fresh "Hhs" in let Hch := fresh "Hch" in
+  apply andb_true_iff in He as [He Henv]; apply andb_true_iff in He as [He Hrx]; apply andb_true_iff in He as [Hhs Hch];
+  apply negb_true_iff in Hhs; apply negb_true_iff in Hch; apply negb_true_iff in Hrx.
+
+Lemma no_hs_request : forall hw, (g_ack hw || g_nak hw || g_stall hw) = false ->
+  gen_request hw = None.
+Proof. intros hw H. unfold gen_request. destruct (g_stall hw), (g_nak hw), (g_ack hw); cbn in H; try discriminate; reflexivity. Qed.
+Ltac no_hs_req Hhs := unfold pi_hs_req in Hhs; cbv zeta in Hhs; rewrite (no_hs_request _ Hhs), Hhs.
+
 Lemma txp_rel_step : forall s q i, txp_rel s q -> txq_env q i = true ->
   txp_rel (fst (txp_tstep s i)) (fst (txq_tstep q i)) /\
   txp_norm (snd (txp_tstep s i)) = snd (txq_tstep q i).
@@ -205,8 +216,8 @@ Proof.
     (* the data generator is idle and stays idle *)
     cbn [tx_rel t_core] in Hd. unfold txo_core in Ec. rewrite Hd in Ec.
     unfold pi_data_req in Hnd. fold w in Hnd.
-    assert (Ef : (tx_first w && tx_svalid w) = false) by (destruct (tx_first w), (tx_svalid w), (tx_last w); cbn in *; congruence).
-    assert (El : (tx_last w && tx_svalid w) = false) by (destruct (tx_first w), (tx_svalid w), (tx_last w); cbn in *; congruence).
+    assert (Ef : (tx_first w && tx_svalid w) = false) by (clear - Hnd; destruct (tx_first w), (tx_svalid w), (tx_last w); cbn in Hnd |- *; congruence).
+    assert (El : (tx_last w && tx_svalid w) = false) by (clear - Hnd; destruct (tx_first w), (tx_svalid w), (tx_last w); cbn in Hnd |- *; congruence).
     rewrite Ef, El in Ec. inversion Ec; subst c' txv txd srdy start. clear Ec.
     cbn [txs_step] in Es. rewrite (andb_comm (tx_svalid w)), Ef, (andb_comm (tx_svalid w)), El in Es. inversion Es; subst d'. clear Es.
     replace ((1 + 2 * hs_byte x) / 2) with (hs_byte x) by lia.
@@ -216,7 +227,7 @@ Proof.
       split; [|split; [|split]].
       * destruct (g_ready (pi_hs_word i)); cbn [negb gen_rel g_tx g_data]; auto.
       * cbn [tx_rel t_core g_fsm]. reflexivity.
-      * split; cbn [g_pidb g_rem]; [destruct Hw as [? ?]; cbn [g_pidb] in *; assumption | destruct Hw as [? ?]; cbn [g_rem] in *; assumption].
+      * exact Hw'.
       * destruct (g_ready (pi_hs_word i)); exact I.
     + unfold txp_norm. cbn [po_valid po_data po_sready po_vrst po_vdata po_vhs]. reflexivity.
   - (* no handshake in flight *)
@@ -247,66 +258,50 @@ Proof.
       * unfold txp_norm. cbn [po_valid po_data po_sready po_vrst po_vdata po_vhs].
         destruct (pi_chirp i); reflexivity.
     + (* PID byte on the bus *)
-      cbn [txq_env] in He. repeat (apply andb_true_iff in He as [He ?]).
-      apply negb_true_iff in He. apply negb_true_iff in H. apply negb_true_iff in H0.
-      rewrite H, H0, mux3_data. cbn [s_valid s_data crc_reg_next].
+      split_env He. rewrite Hch, Hrx, mux3_data. no_hs_req Hhs. cbn [s_valid s_data crc_reg_next].
       destruct Hd as (Hf & Hp & Hz). cbn [t_core] in Hf. unfold txo_core in Ec. rewrite Hf in Ec.
       inversion Ec; subst c' txv txd srdy start. clear Ec.
       split.
       * unfold txp_rel, tx_part. cbn [p_hs p_core p_crc fst snd].
         split; [|split; [|split]].
-        -- unfold pi_hs_req in He. unfold gen_request.
-           destruct (g_stall (pi_hs_word i)), (g_nak (pi_hs_word i)), (g_ack (pi_hs_word i)); cbn in He; try discriminate.
-           cbn [gen_rel g_tx]. reflexivity.
+        -- cbn [gen_rel g_tx]. reflexivity.
         -- exact Hd'.
         -- exact Hw'.
         -- exact I.
       * rewrite Dv, Dd, Dr. unfold txp_norm. cbn [po_valid po_data po_sready po_vrst po_vdata po_vhs]. reflexivity.
     + (* payload *)
-      cbn [txq_env] in He. repeat (apply andb_true_iff in He as [He ?]).
-      apply negb_true_iff in He. apply negb_true_iff in H0. apply negb_true_iff in H1.
-      rewrite H0, H1, mux3_data. cbn [s_valid s_data crc_reg_next].
+      split_env He. rewrite Hch, Hrx, mux3_data. no_hs_req Hhs. cbn [s_valid s_data crc_reg_next].
       destruct Hd as (Hf & Hc). cbn [t_core] in Hf. unfold txo_core in Ec. rewrite Hf in Ec.
       inversion Ec; subst c' txv txd srdy start. clear Ec.
       split.
       * unfold txp_rel, tx_part. cbn [p_hs p_core p_crc fst snd].
         split; [|split; [|split]].
-        -- unfold pi_hs_req in He. unfold gen_request.
-           destruct (g_stall (pi_hs_word i)), (g_nak (pi_hs_word i)), (g_ack (pi_hs_word i)); cbn in He; try discriminate.
-           cbn [gen_rel g_tx]. reflexivity.
+        -- cbn [gen_rel g_tx]. reflexivity.
         -- rewrite Hf in Hd'. cbn [crc_reg_next] in Hd'.
            destruct (tx_svalid w); cbn [andb] in Hd' |- *; exact Hd'.
         -- exact Hw'.
         -- exact I.
       * rewrite Dv, Dd, Dr. unfold txp_norm. cbn [po_valid po_data po_sready po_vrst po_vdata po_vhs]. reflexivity.
     + (* CRC low byte *)
-      cbn [txq_env] in He. repeat (apply andb_true_iff in He as [He ?]).
-      apply negb_true_iff in He. apply negb_true_iff in H0. apply negb_true_iff in H1.
-      rewrite H0, H1, mux3_data. cbn [s_valid s_data crc_reg_next].
+      split_env He. rewrite Hch, Hrx, mux3_data. no_hs_req Hhs. cbn [s_valid s_data crc_reg_next].
       destruct Hd as (Hf & Hc). cbn [t_core] in Hf. unfold txo_core in Ec. rewrite Hf in Ec.
       inversion Ec; subst c' txv txd srdy start. clear Ec.
       split.
       * unfold txp_rel, tx_part. cbn [p_hs p_core p_crc fst snd].
         split; [|split; [|split]].
-        -- unfold pi_hs_req in He. unfold gen_request.
-           destruct (g_stall (pi_hs_word i)), (g_nak (pi_hs_word i)), (g_ack (pi_hs_word i)); cbn in He; try discriminate.
-           cbn [gen_rel g_tx]. reflexivity.
+        -- cbn [gen_rel g_tx]. reflexivity.
         -- rewrite Hf in Hd'. cbn [crc_reg_next andb] in Hd' |- *. exact Hd'.
         -- exact Hw'.
         -- exact I.
       * rewrite Dv, Dd, Dr. unfold txp_norm. cbn [po_valid po_data po_sready po_vrst po_vdata po_vhs]. reflexivity.
     + (* CRC high byte *)
-      cbn [txq_env] in He. repeat (apply andb_true_iff in He as [He ?]).
-      apply negb_true_iff in He. apply negb_true_iff in H0. apply negb_true_iff in H1.
-      rewrite H0, H1, mux3_data. cbn [s_valid s_data crc_reg_next].
+      split_env He. rewrite Hch, Hrx, mux3_data. no_hs_req Hhs. cbn [s_valid s_data crc_reg_next].
       destruct Hd as (Hf & Hc). cbn [t_core] in Hf. unfold txo_core in Ec. rewrite Hf in Ec.
       inversion Ec; subst c' txv txd srdy start. clear Ec.
       split.
       * unfold txp_rel, tx_part. cbn [p_hs p_core p_crc fst snd].
         split; [|split; [|split]].
-        -- unfold pi_hs_req in He. unfold gen_request.
-           destruct (g_stall (pi_hs_word i)), (g_nak (pi_hs_word i)), (g_ack (pi_hs_word i)); cbn in He; try discriminate.
-           cbn [gen_rel g_tx]. reflexivity.
+        -- cbn [gen_rel g_tx]. reflexivity.
         -- rewrite Hf in Hd'. cbn [crc_reg_next andb] in Hd' |- *. exact Hd'.
         -- exact Hw'.
         -- exact I.
